@@ -1,7 +1,7 @@
 (* C48 — OAuth request signatures match the OAuth 1.0 specification (RFC 5849). *)
 From Coq Require Import List NArith Bool Permutation Sorted String.
 Import ListNotations.
-From TV Require Import Lib.Obs C48.Model C48.Spec C48.Proofs C48.Proofs2 C48.Proofs3 C48.Proofs4 C48.Proofs5 C48.Run.
+From TV Require Import Lib.Obs C48.Model C48.Spec C48.Proofs C48.Proofs2 C48.Proofs3 C48.Proofs4 C48.Proofs5 C48.Run C48.ModelP4 C48.ProofsP4.
 
 (* Parameter normalisation: Tornado's string is an ascending arrangement of the
    percent-encoded (name, value) pairs, and it is the only one. *)
@@ -170,19 +170,74 @@ Theorem C48_timestamp_and_nonce_numerals : forall t n, bytes n ->
 Proof. intros t n Hn. split; [apply dec_is_decimal|apply hex_lower_is_hex, Hn]. Qed.
 Print Assumptions C48_timestamp_and_nonce_numerals.
 
+(* ---------------------------------------------------------------------- *)
+(* Phase 4: OAuthMixin._oauth_request_token_url / _oauth_access_token_url  *)
+(* ---------------------------------------------------------------------- *)
+
+(* which parameters the request-token URL signs: 1.0a = the five protocol parameters, the callback
+   ("oob", or the urljoin result for a non-empty callback_uri), then extra_params; 1.0 = the five
+   protocol parameters only (callback and extra_params are neither signed nor sent) *)
+Theorem C48_request_token_parameters : forall ck t n cbu joined extra, NoDup (keys extra) ->
+  Permutation (reqtok_args true ck t n cbu joined extra)
+              (spec_signed (reqtok_base ck t n ++ cb_pairs cbu joined) extra)
+  /\ reqtok_args false ck t n cbu joined extra = reqtok_base ck t n.
+Proof. exact reqtok_args_spec. Qed.
+Print Assumptions C48_request_token_parameters.
+
+(* args["oauth_signature"] = signature appends the signature, and dropping it again gives the signed set *)
+Theorem C48_signature_is_attached_last : forall sig d, ~ In K_SIGNATURE (keys d) ->
+  dict_set K_SIGNATURE sig d = d ++ [(K_SIGNATURE, sig)] /\ server_params (dict_set K_SIGNATURE sig d) = d.
+Proof. exact attach_signature. Qed.
+Print Assumptions C48_signature_is_attached_last.
+
+(* the oauth_signature in the produced URL is, for any MAC and both versions, the RFC 5849 signature
+   (key: consumer secret & empty token secret) of exactly the other parameters in the URL's query *)
+Theorem C48_request_token_url_signature_is_rfc :
+  forall (mac : text -> text -> text) v scheme ui host port path ck cs t n cbu joined extra params,
+  ~ In 64%N host -> (forall p, port = Some p -> ~ In 64%N p /\ ~ In 58%N p) -> (port = None -> ~ In 58%N host) ->
+  ~ In K_SIGNATURE (keys extra) ->
+  let sig := mac (reqtok_key v cs) (reqtok_msg v scheme ui host port path ck t n cbu joined extra) in
+  let query := dict_set K_SIGNATURE sig (reqtok_args v ck t n cbu joined extra) in
+  reqtok_url sig v scheme ui host port path ck t n cbu joined extra
+    = url_text scheme ui host port path ++ 63%N :: urlencode_b query
+  /\ (rfc_normalized (server_params query) params ->
+      sig = mac (spec_key cs []) (rfc_base_string GET (rfc_base_uri scheme host port path) params)).
+Proof. exact reqtok_signature_is_rfc. Qed.
+Print Assumptions C48_request_token_url_signature_is_rfc.
+
+(* the access-token URL: six protocol parameters (+ oauth_verifier when the request token has one),
+   signature last, and it is the RFC signature (key: consumer secret & token secret) of the others *)
+Theorem C48_access_token_url_signature_is_rfc :
+  forall (mac : text -> text -> text) v scheme ui host port path ck cs tk tsec t n vf params,
+  ~ In 64%N host -> (forall p, port = Some p -> ~ In 64%N p /\ ~ In 58%N p) -> (port = None -> ~ In 58%N host) ->
+  let sig := mac (acctok_key v cs tsec) (acctok_msg scheme ui host port path ck tk t n vf) in
+  let query := dict_set K_SIGNATURE sig (acctok_args ck tk t n vf) in
+  acctok_url sig scheme ui host port path ck tk t n vf
+    = url_text scheme ui host port path ++ 63%N :: urlencode_b query
+  /\ query = (base_args ck tk t n ++ match vf with Some x => [(K_VERIFIER, x)] | None => [] end) ++ [(K_SIGNATURE, sig)]
+  /\ (rfc_normalized (server_params query) params ->
+      sig = mac (spec_key cs tsec) (rfc_base_string GET (rfc_base_uri scheme host port path) params)).
+Proof. exact acctok_signature_is_rfc. Qed.
+Print Assumptions C48_access_token_url_signature_is_rfc.
+
 (* the model satisfies the checker on every kind of case *)
 Theorem C48_model_satisfies_checker : forall i,
   match i with
   | ISign _ (m, sc, ui, host, port, path, _, _, _) => wf_url (m, sc, ui, host, port, path)
   | IReq _ u user _ _ n => wf_url u /\ NoDup (keys user) /\ bytes n
   | IEsc s => bytes s
+  | IReqTok _ (sc, ui, host, port, path) _ _ extra _ _ _ _ => wf_url ([], sc, ui, host, port, path) /\ NoDup (keys extra)
+  | IAccTok _ (sc, ui, host, port, path) _ _ _ _ => wf_url ([], sc, ui, host, port, path)
   end ->
   check_case i (run_case i) = true.
 Proof.
-  intros [v [[[[[[[[m sc] ui] host] port] path] ps] cs] tok]|v [[[[[m sc] ui] host] port] path] user [[[ck cs] tk] tsec] t n|s] H.
+  intros [v [[[[[[[[m sc] ui] host] port] path] ps] cs] tok]|v [[[[[m sc] ui] host] port] path] user [[[ck cs] tk] tsec] t n|s
+         |v [[[[sc ui] host] port] path] cbu joined extra ck cs t n|v [[[[sc ui] host] port] path] [[[ck cs] tk] tsec] vf t n] H.
   - apply sign_satisfies_checker. exact H.
   - destruct H as (H1 & H2 & H3). apply req_satisfies_checker; assumption.
   - apply esc_satisfies_checker. exact H.
+  - destruct H as (H1 & H2). apply reqtok_satisfies_checker; assumption.
+  - apply acctok_satisfies_checker. exact H.
 Qed.
 Print Assumptions C48_model_satisfies_checker.
 
